@@ -526,7 +526,39 @@ def anchors_rule(chk):
     cand = set(chk.repo.consulted) - ANCHOR_EXEMPT
     todo = sorted(k for k in cand if k not in pinned and k[1] in ref.get(k[0], {}).get("funcs", {}))
     if not todo:
+        files_rule(chk, pinned)
         return
     chk.rule("ANCHOR", "every function the rules of this property anchor on is proven equal to its reference version (E8)")
     for rel, key in todo:
         same_as_reference(chk, "ANCHOR", rel, key, "a function the rules of this property read")
+    files_rule(chk, pinned | set(todo))
+
+
+DISPLAY_ONLY = ("__repr__", "__str__", "__format__")
+
+
+def files_rule(chk, done):
+    """FILE: the rest of the files the property is anchored in.  Five waves of seeded changes kept finding the same hole —
+    a function of an anchored file that no rule of the property opens (the frame setter for C01 and C02, `parse_date` for
+    C04, `Interp._prev_idx` for C06, `DateRange.__iter__` for C08, `TopocentricFrame.__init__` for C11).  Every function
+    of the anchored files, display methods excepted, is proven equal to its reference version."""
+    import os as _os
+    if _os.environ.get("BVSTATIC_NO_FILES"):
+        return
+    from ..equiv import reference, same_as_reference
+    ref = reference()["modules"]
+    files = anchored_files().get(chk.prop, [])
+    todo = []
+    for rel in files:
+        for key in sorted(ref.get(rel, {}).get("funcs", {})):
+            if (rel, key) in done or key.split(".")[-1].split(":")[0] in DISPLAY_ONLY or (rel, key.split(":")[0]) in ANCHOR_EXEMPT:
+                continue
+            todo.append((rel, key))
+    if not todo:
+        return
+    chk.rule("FILE", "every other function of the anchored files (display methods excepted) is proven equal to its reference version (E8)")
+    from ..equiv import module_fingerprints
+    for rel, key in todo:
+        if key not in module_fingerprints(chk.repo, rel)["funcs"]:
+            continue            # removed: left to the rules that anchor it (and to E8's helper accounting)
+        same_as_reference(chk, "FILE", rel, key, "a function of a file this property is anchored in")
